@@ -87,7 +87,7 @@ def run_case(case):
                 out["violations"].append({"kind": "factory_built_relation_not_hashable", "detail": f"{model.show(prog)}: hash() raised {h[1]}; tree {short(rel, 200)}"})
             # ``processed``: a tree a Processor returned (or one built on such a tree); its transfers
             # and materializations carry payloads, which are part of what must not change
-            pool.append({"prog": prog, "rel": rel, "cols": frozenset(cols), "eng": eng, "processed": processed, "fp": fingerprint(rel, marker_payloads=processed)})
+            pool.append({"prog": prog, "rel": rel, "cols": frozenset(cols), "eng": eng, "processed": processed, "fp": fingerprint(rel), "marker_fp": marker_payloads(rel) if processed else {}})
 
         for name, spec in case["leaves"].items():
             prog = ["leaf", name]
@@ -98,7 +98,15 @@ def run_case(case):
         def sweep(after):
             c["fingerprint_sweeps"] = c.get("fingerprint_sweeps", 0) + 1
             for ent in pool:
-                now = fingerprint(ent["rel"], marker_payloads=ent.get("processed", False))
+                if ent.get("marker_fp"):
+                    # payloads that transfers / materializations of a processed tree carried when it
+                    # entered the pool must keep their content (nodes that had none may still gain one)
+                    cur = marker_payloads(ent["rel"])
+                    bad = [k for k, v in ent["marker_fp"].items() if cur.get(k) != v]
+                    if bad:
+                        out["violations"].append({"kind": "payload_of_processed_tree_changed", "detail": f"{model.show(ent['prog'])} (a tree returned by a Processor): the content of {len(bad)} transfer / materialization payload(s) changed after step {after}"})
+                        ent["marker_fp"] = {k: cur.get(k) for k in ent["marker_fp"]}
+                now = fingerprint(ent["rel"])
                 if now != ent["fp"]:
                     fields = ["repr", "str", "columns", "min_rows", "max_rows", "hash", "engine", "is_locked", "payloads"]
                     diff = [fields[i] for i, (x, y) in enumerate(zip(ent["fp"], now)) if x != y]
@@ -289,6 +297,15 @@ def run_case(case):
         return out
     finally:
         db.close()
+
+
+def marker_payloads(rel) -> dict:
+    """id(node) -> content fingerprint of the payload, for transfers / materializations that carry one."""
+    import lsst.daf.relation as R
+
+    from ..fingerprint import payload_fp
+
+    return {id(n): (type(n).__name__, payload_fp(n.payload)) for n in interp.walk(rel) if isinstance(n, (R.Transfer, R.Materialization)) and n.payload is not None}
 
 
 def tcanon(rows):
